@@ -1039,6 +1039,10 @@ impl InnerSpec {
 #[derive(Clone)]
 struct EnterSubj<S>(usize, S);
 fn enter_inner(k: usize) {
+  // a synchronous outer must stop handing out inners once the subscriber has finished (counter 2 = this rule is on)
+  if world::counter(2) == 1 && world::w(|w| w.probes.first().map_or(false, |p| p.terminated)) {
+    e::fail("flatten/outer-keeps-going-after-output-finished", || format!("inner {} was subscribed although the flattened stream's subscriber had already finished: a synchronous outer over an unbounded iterator would never return", k));
+  }
   world::bump(100 + k);
   let live = world::bump(0);
   let lim = world::counter(1);
@@ -1185,10 +1189,14 @@ pub(crate) fn c05_multicast(nsteps: usize, ninner: usize, threads_form: bool) {
   world::set_counter(1, if limit == usize::MAX { i64::MAX } else { limit as i64 });
   let sync_outer = e::choose_bool();
   let relay = e::choose_bool();
+  // an operator below the flattening one that finishes early
+  let post_take = e::choose(3) as usize;
+  // (the rule of enter_inner is on only while the synchronous outer runs, i.e. during subscribe())
+  let rule_on = sync_outer && post_take > 0;
   let specs: Vec<InnerSpec> = (0..ninner)
     .map(|_| match e::choose(3) { 0 => InnerSpec::Hot, 1 => InnerSpec::HotSubj, _ => InnerSpec::Cold(draw_script(2, false)) })
     .collect();
-  e::note(format!("{:?}{}{}{} inners [{}]", op, if threads_form { " (threads)" } else { "" }, if sync_outer { " from_iter outer" } else { "" }, if relay { " multicast through a Subject" } else { "" }, specs.iter().map(|s| match s { InnerSpec::Hot => "hot".to_string(), InnerSpec::HotSubj => "subject".to_string(), InnerSpec::Cold(s) => format!("cold[{}]", s.show()) }).collect::<Vec<_>>().join(", ")));
+  e::note(format!("{:?}{}{}{}{} inners [{}]", op, if threads_form { " (threads)" } else { "" }, if sync_outer { " from_iter outer" } else { "" }, if relay { " multicast through a Subject" } else { "" }, if post_take > 0 { format!(" then take({})", post_take) } else { String::new() }, specs.iter().map(|s| match s { InnerSpec::Hot => "hot".to_string(), InnerSpec::HotSubj => "subject".to_string(), InnerSpec::Cold(s) => format!("cold[{}]", s.show()) }).collect::<Vec<_>>().join(", ")));
   let probe = fresh_probe();
   let cfg = format!("{}{}{}", format!("{:?}", op).chars().filter(|c| c.is_ascii_alphabetic()).collect::<String>(), if sync_outer { "/sync" } else { "" }, if relay { "/relay" } else { "" });
   e::cfg_begin(&cfg);
@@ -1207,8 +1215,12 @@ pub(crate) fn c05_multicast(nsteps: usize, ninner: usize, threads_form: bool) {
         _ => src.flatten().box_it(),
       }
     };
+    let flat: rxrust::ops::box_it::BoxOp<'static, Val, Val> = if post_take > 0 { flat.take(post_take).box_it() } else { flat };
     let flat: rxrust::ops::box_it::BoxOp<'static, Val, Val> = if relay { cat::RelayG(flat).box_it() } else { flat };
+    world::set_counter(2, rule_on as i64);
     let u = flat.actual_subscribe(probe);
+    world::set_counter(2, 0);
+    world::set_counter(3, post_take as i64);
     drive_c05_x(op, &specs, nsteps, limit, probe, false, |k| inner_obs(k, &specs[k]), |_k| unreachable!(), None, None, sync_outer, &cfg);
     std::mem::forget(u);
   } else {
@@ -1225,8 +1237,12 @@ pub(crate) fn c05_multicast(nsteps: usize, ninner: usize, threads_form: bool) {
         _ => src.flatten_threads().box_it(),
       }
     };
+    let flat: rxrust::ops::box_it::BoxOpThreads<Val, Val> = if post_take > 0 { flat.take(post_take).box_it() } else { flat };
     let flat: rxrust::ops::box_it::BoxOpThreads<Val, Val> = if relay { cat::RelayGT(flat).box_it() } else { flat };
+    world::set_counter(2, rule_on as i64);
     let u = flat.actual_subscribe(probe);
+    world::set_counter(2, 0);
+    world::set_counter(3, post_take as i64);
     drive_c05_x(op, &specs, nsteps, limit, probe, true, |_k| unreachable!(), |k| inner_obs_t(k, &specs[k]), None, None, sync_outer, &cfg);
     std::mem::forget(u);
   }
@@ -1522,6 +1538,16 @@ fn drive_c05_x(op: FlatOp, specs: &[InnerSpec], nsteps: usize, limit: usize, pro
     e::cover("c02-flatten-path-complete");
     return;
   }
+  // an early-finishing operator below: the first n items, then its own completion
+  let cut_n = world::counter(3) as usize;
+  if cut_n > 0 {
+    let nitems = want.iter().filter(|x| matches!(x, Ev::Next(_))).count();
+    let before_term = want.iter().take_while(|x| matches!(x, Ev::Next(_))).count();
+    if before_term >= cut_n && nitems >= cut_n {
+      want = want.into_iter().take(cut_n).collect();
+      want.push(Ev::Complete);
+    }
+  }
   let got = probe.events();
   let key = format!("flatten/sequence/{}", match op { FlatOp::MergeAll(_) => "merge_all", FlatOp::ConcatAll => "concat_all", FlatOp::Flatten => "flatten", FlatOp::FlatMap => "flat_map", FlatOp::ConcatMap => "concat_map" });
   let detail = || format!("got [{}] expected [{}]", model::show_events(&got), model::show_events(&want));
@@ -1574,10 +1600,10 @@ pub fn harnesses() -> Vec<HarnessDef> {
   add("c02_flatten", vec!["C02", "C17"], "flattening operators: unsubscribe() at every step; afterwards no inner (running, queued-then-started, hot or periodic) may deliver", b5, Box::new(|t| c05_flatten_x(if t { 7 } else { 5 }, 3, false, true)), 3_000_000, 40_000_000, true);
   add("c02_flatten_threads", vec!["C02", "C17"], "same for the _threads forms", b5, Box::new(|t| c05_flatten_x(if t { 7 } else { 5 }, 3, true, true)), 3_000_000, 40_000_000, true);
   fn b5m(t: bool) -> String {
-    format!("3 inner observables, each a create-handle, a Subject or cold (<=2 items); outer a create-handle or from_iter; output direct or multicast through a Subject; {} steps", if t { 7 } else { 5 })
+    format!("3 inner observables, each a create-handle, a Subject or cold (<=2 items); outer a create-handle or from_iter; output direct or multicast through a Subject, optionally cut by take(1|2); {} steps", if t { 6 } else { 4 })
   }
-  add("c05_multicast", vec!["C05"], "flattening operators whose output is multicast through a Subject, with Subject inners and a synchronous outer, vs the queue model", b5m, Box::new(|t| c05_multicast(if t { 7 } else { 5 }, 3, false)), 3_000_000, 40_000_000, true);
-  add("c05_multicast_threads", vec!["C05"], "same for the _threads forms", b5m, Box::new(|t| c05_multicast(if t { 7 } else { 5 }, 3, true)), 3_000_000, 40_000_000, true);
+  add("c05_multicast", vec!["C05"], "flattening operators whose output is multicast through a Subject, with Subject inners and a synchronous outer, vs the queue model", b5m, Box::new(|t| c05_multicast(if t { 6 } else { 4 }, 3, false)), 4_000_000, 40_000_000, true);
+  add("c05_multicast_threads", vec!["C05"], "same for the _threads forms", b5m, Box::new(|t| c05_multicast(if t { 6 } else { 4 }, 3, true)), 4_000_000, 40_000_000, true);
   add("c05_flatten_threads", vec!["C05"], "the _threads forms; re-acquisition of a held MutArc lock = would block forever", b5, Box::new(|t| c05_flatten(if t { 7 } else { 6 }, 3, true)), 3_000_000, 40_000_000, true);
   v
 }
